@@ -321,6 +321,12 @@ void AbstractDiscreteDistribution::discretizeEqualProportions()
     for (i = 1; i < numberOfCategories_; i++)
     {
       bounds_[i - 1] = qProb(minX + static_cast<double>(i) * ec);
+      // guard against the round-off of the quantile function: bounds stay ordered and inside the domain
+      double previous = (i == 1) ? intMinMax_->getLowerBound() : bounds_[i - 2];
+      if (!(bounds_[i - 1] >= previous))
+        bounds_[i - 1] = previous;
+      if (bounds_[i - 1] > intMinMax_->getUpperBound())
+        bounds_[i - 1] = intMinMax_->getUpperBound();
     }
 
     // for each category, sets the value v as the median, adjusted
